@@ -159,6 +159,7 @@ type FnTrans struct {
 	ptrTerms          []ptrTerm
 	ghostHit          map[*Clause]bool
 	siteOrd           map[ssa.Instruction]int
+	recordGets        map[string]bool
 	singleAssignCache map[*ssa.Alloc]*ssa.Store
 	collectUnlocked   *[]string // while evaluating a callee's requires: lock components it needs unlocked (it acquires them)
 	tpEvents          []tpEvent
@@ -584,6 +585,9 @@ func (t *FnTrans) rangeFact(x string, T types.Type) string {
 // ---------- heap components ----------
 
 func (t *FnTrans) get(comp string) string {
+	if t.recordGets != nil {
+		t.recordGets[comp] = true
+	}
 	if v, ok := t.cur.H[comp]; ok {
 		return v
 	}
